@@ -1,6 +1,349 @@
 package main
 
-func thorough(vd string, c *Ctx, p *Property, res *propResult, ev *Evidence) {
-}
+// Thorough tier: more build configurations, VTA call-graph cross-check, the
+// both-ways self test on the mutant corpus, and cross-reference runs of the
+// generic pre-built tools (non-gating).
+
+import (
+	"context"
+	"encoding/json"
+	"fmt"
+	"os"
+	"os/exec"
+	"path/filepath"
+	"sort"
+	"strings"
+	"sync"
+	"time"
+)
 
 func writeGolden(c *Ctx, path string) error { return writeGoldenFile(c, path) }
+
+type configResult struct {
+	Config      string   `json:"config"`
+	Obligations int      `json:"obligations"`
+	Discharged  int      `json:"discharged"`
+	Differences []string `json:"differences_from_default,omitempty"`
+	Error       string   `json:"error,omitempty"`
+}
+
+func statusMap(res *propResult) map[string]string {
+	m := map[string]string{}
+	for _, o := range res.all {
+		m[o.Key] = o.Status
+	}
+	return m
+}
+
+func thorough(vd string, c *Ctx, p *Property, res *propResult, ev *Evidence) {
+	base := statusMap(res)
+
+	// 1. other build configurations (cover what the build covers)
+	configs := []struct {
+		name string
+		env  []string
+		tags string
+	}{
+		{"linux/386", []string{"GOARCH=386"}, ""},
+		{"windows/amd64", []string{"GOOS=windows"}, ""},
+		{"darwin/arm64", []string{"GOOS=darwin", "GOARCH=arm64"}, ""},
+		{"linux/amd64 -tags verif", nil, "verif"},
+	}
+	var cfgResults []configResult
+	for _, cf := range configs {
+		cr := configResult{Config: cf.name}
+		c2, err := loadCtx(loadOpts{dir: c.Dir, rootPath: rootPkgPath, config: cf.name, env: cf.env, tags: cf.tags})
+		if err != nil {
+			cr.Error = err.Error()
+			res.extraViolations = append(res.extraViolations, "configuration "+cf.name+" cannot be analysed: "+err.Error())
+			cfgResults = append(cfgResults, cr)
+			continue
+		}
+		r2 := evalProperty(c2, p)
+		cr.Obligations = len(r2.all)
+		m2 := statusMap(r2)
+		for _, o := range r2.all {
+			if o.st == Discharged {
+				cr.Discharged++
+			}
+			if base[o.Key] != o.Status {
+				cr.Differences = append(cr.Differences, fmt.Sprintf("%s: %s here, %q in the default configuration", o.Key, o.Status, base[o.Key]))
+				if o.st != Discharged {
+					o.Msg = "[" + cf.name + "] " + o.Msg
+					res.all = append(res.all, o)
+				}
+			}
+		}
+		for k := range base {
+			if _, ok := m2[k]; !ok {
+				cr.Differences = append(cr.Differences, k+": obligation absent in this configuration")
+			}
+		}
+		res.extraViolations = append(res.extraViolations, prefixAll("["+cf.name+"] ", r2.extraViolations)...)
+		cfgResults = append(cfgResults, cr)
+		c2 = nil
+	}
+	ev.Coverage["configurations"] = cfgResults
+
+	// 2. VTA call graph cross-check (reachability-scoped rules may change)
+	if c.VTA != nil {
+		c.UseVTA = true
+		c.entr = nil
+		r3 := evalProperty(c, p)
+		c.UseVTA = false
+		c.entr = nil
+		m3 := statusMap(r3)
+		var diffs []string
+		for k, s := range base {
+			if s3, ok := m3[k]; ok && s3 != s {
+				diffs = append(diffs, fmt.Sprintf("%s: CHA %s, VTA %s", k, s, s3))
+			}
+		}
+		for _, o := range r3.all {
+			if _, ok := base[o.Key]; !ok && o.st != Discharged {
+				diffs = append(diffs, fmt.Sprintf("%s: only with the VTA graph: %s", o.Key, o.Status))
+			}
+		}
+		sort.Strings(diffs)
+		ev.Coverage["vta_crosscheck"] = map[string]interface{}{"obligations": len(r3.all), "disagreements": diffs}
+		for _, d := range diffs {
+			res.extraViolations = append(res.extraViolations, "undecided: CHA and VTA call graphs disagree on "+d)
+		}
+	}
+
+	// 3. both-ways self test on the mutant corpus
+	baseClean := len(res.extraViolations) == 0
+	for _, o := range res.all {
+		if o.st != Discharged {
+			baseClean = false
+		}
+	}
+	st := selfTest(vd, c.Dir, p.ID)
+	ev.Coverage["selftest"] = st
+	if baseClean {
+		// the tree itself is clean for this property: a mismatch is a defect of the checker
+		if len(st.Mismatches) > 0 {
+			for _, m := range st.Mismatches {
+				fmt.Println("SELFTEST-MISMATCH:", m)
+			}
+			panic(infra("the both-ways self test of the checker failed for %d patch(es): the checker is broken, no verdict", len(st.Mismatches)))
+		}
+	}
+
+	// 4. cross-reference: generic tools (non-gating)
+	ev.Coverage["cross_reference"] = crossReference(c.Dir)
+}
+
+func prefixAll(p string, in []string) []string {
+	var out []string
+	for _, s := range in {
+		out = append(out, p+s)
+	}
+	return out
+}
+
+type expectFile struct {
+	Breaking map[string]struct {
+		CaughtBy []string `json:"caught_by"`
+		Targets  string   `json:"targets"`
+	} `json:"breaking"`
+	Benign []string `json:"benign"`
+}
+
+type selfTestResult struct {
+	BreakingRun    int      `json:"breaking_run"`
+	BreakingCaught int      `json:"breaking_caught"`
+	BenignRun      int      `json:"benign_run"`
+	BenignSilent   int      `json:"benign_silent"`
+	Skipped        []string `json:"skipped_patch_does_not_apply,omitempty"`
+	Mismatches     []string `json:"mismatches,omitempty"`
+	KnownMisses    []string `json:"breaking_patches_no_rule_catches,omitempty"`
+	Samples        []string `json:"samples,omitempty"`
+	WallS          float64  `json:"wall_s"`
+	Explanation    string   `json:"explanation"`
+}
+
+// selfTest applies every patch of the corpus that concerns property id to a
+// scratch copy of the current tree (outside /repo and /verif, removed
+// afterwards) and runs the quick check of that property on the copy in a
+// separate process.
+func selfTest(vd, repo, id string) *selfTestResult {
+	start := time.Now()
+	st := &selfTestResult{Explanation: "breaking patches (reverse patches of the ten repairs, 51 independently produced and confirmed seeded defects) must be reported; benign refactorings (59) must leave the check silent; patches are applied to a scratch copy of the current tree"}
+	b, err := os.ReadFile(filepath.Join(vd, "mutants", "expect.json"))
+	if err != nil {
+		st.Mismatches = append(st.Mismatches, "cannot read mutants/expect.json: "+err.Error())
+		return st
+	}
+	var ex expectFile
+	if err := json.Unmarshal(b, &ex); err != nil {
+		st.Mismatches = append(st.Mismatches, "mutants/expect.json: "+err.Error())
+		return st
+	}
+	type job struct {
+		patch     string
+		wantCatch bool
+	}
+	var jobs []job
+	var names []string
+	for n := range ex.Breaking {
+		names = append(names, n)
+	}
+	sort.Strings(names)
+	for _, n := range names {
+		e := ex.Breaking[n]
+		if len(e.CaughtBy) == 0 {
+			if strings.Contains(n, id) {
+				st.KnownMisses = append(st.KnownMisses, n)
+			}
+			continue
+		}
+		for _, pid := range e.CaughtBy {
+			if pid == id {
+				jobs = append(jobs, job{n, true})
+			}
+		}
+	}
+	for _, n := range ex.Benign {
+		jobs = append(jobs, job{n, false})
+	}
+	exe, _ := os.Executable()
+	var mu sync.Mutex
+	var wg sync.WaitGroup
+	sem := make(chan struct{}, 8)
+	for _, j := range jobs {
+		wg.Add(1)
+		sem <- struct{}{}
+		go func(j job) {
+			defer wg.Done()
+			defer func() { <-sem }()
+			rc, applied, out := runOnPatched(exe, vd, repo, filepath.Join(vd, j.patch), id)
+			mu.Lock()
+			defer mu.Unlock()
+			if !applied {
+				st.Skipped = append(st.Skipped, j.patch)
+				return
+			}
+			if j.wantCatch {
+				st.BreakingRun++
+				if rc == 1 {
+					st.BreakingCaught++
+					if len(st.Samples) < 6 {
+						st.Samples = append(st.Samples, j.patch+" -> reported: "+firstViolation(out))
+					}
+				} else {
+					st.Mismatches = append(st.Mismatches, fmt.Sprintf("%s should be reported by %s but the check exited %d", j.patch, id, rc))
+				}
+			} else {
+				st.BenignRun++
+				if rc == 0 {
+					st.BenignSilent++
+				} else {
+					st.Mismatches = append(st.Mismatches, fmt.Sprintf("benign %s raised an alarm in %s (exit %d): %s", j.patch, id, rc, firstViolation(out)))
+				}
+			}
+		}(j)
+	}
+	wg.Wait()
+	sort.Strings(st.Skipped)
+	sort.Strings(st.Mismatches)
+	sort.Strings(st.Samples)
+	st.WallS = time.Since(start).Seconds()
+	return st
+}
+
+func firstViolation(out string) string {
+	lines := strings.Split(out, "\n")
+	for i, l := range lines {
+		if strings.HasPrefix(l, "VIOLATION") && i+1 < len(lines) {
+			return strings.TrimSpace(lines[i+1])
+		}
+	}
+	for _, l := range lines {
+		if strings.HasPrefix(l, "INFRA") {
+			return l
+		}
+	}
+	return ""
+}
+
+func runOnPatched(exe, vd, repo, patch, id string) (rc int, applied bool, out string) {
+	tmp, err := os.MkdirTemp("", "icemut")
+	if err != nil {
+		return 2, false, err.Error()
+	}
+	defer os.RemoveAll(tmp)
+	if o, err := exec.Command("rsync", "-a", "--exclude", ".git", repo+"/", tmp+"/").CombinedOutput(); err != nil {
+		return 2, false, string(o)
+	}
+	ap := exec.Command("git", "apply", "--whitespace=nowarn", patch)
+	ap.Dir = tmp
+	if err := ap.Run(); err != nil {
+		return 0, false, ""
+	}
+	ctx, cancel := context.WithTimeout(context.Background(), 5*time.Minute)
+	defer cancel()
+	cmd := exec.CommandContext(ctx, exe, "-property", id, "-tier", "quick", "-repo", tmp, "-verif", vd, "-nocontrols", "-noevidence")
+	o, err := cmd.CombinedOutput()
+	rc = 0
+	if ee, ok := err.(*exec.ExitError); ok {
+		rc = ee.ExitCode()
+	} else if err != nil {
+		rc = 2
+	}
+	return rc, true, string(o)
+}
+
+type xref struct {
+	Tool    string `json:"tool"`
+	Cmd     string `json:"cmd"`
+	Exit    int    `json:"exit"`
+	Reports int    `json:"report_lines"`
+	Head    string `json:"first_lines,omitempty"`
+	Note    string `json:"note"`
+}
+
+func crossReference(repo string) []xref {
+	var out []xref
+	run := func(tool, note string, args ...string) {
+		if _, err := exec.LookPath(args[0]); err != nil {
+			out = append(out, xref{Tool: tool, Cmd: strings.Join(args, " "), Exit: -1, Note: "tool not found"})
+			return
+		}
+		ctx, cancel := context.WithTimeout(context.Background(), 4*time.Minute)
+		defer cancel()
+		cmd := exec.CommandContext(ctx, args[0], args[1:]...)
+		cmd.Dir = repo
+		cmd.Env = append(os.Environ(), "GOFLAGS=-mod=mod", "GOPROXY=off", "GOSUMDB=off", "GOTOOLCHAIN=local", "GOWORK=off")
+		o, err := cmd.CombinedOutput()
+		rc := 0
+		if ee, ok := err.(*exec.ExitError); ok {
+			rc = ee.ExitCode()
+		} else if err != nil {
+			rc = -2
+		}
+		lines := strings.Split(strings.TrimSpace(string(o)), "\n")
+		n := 0
+		for _, l := range lines {
+			if strings.TrimSpace(l) != "" && !strings.HasPrefix(l, "#") {
+				n++
+			}
+		}
+		head := strings.Join(lines[:minInt(len(lines), 6)], " | ")
+		if len(head) > 600 {
+			head = head[:600]
+		}
+		out = append(out, xref{Tool: tool, Cmd: strings.Join(args, " "), Exit: rc, Reports: n, Head: head, Note: note})
+	}
+	run("go vet", "generic; cross-reference only, not a verdict on any property", "go", "vet", "./...")
+	run("staticcheck", "generic; cross-reference only", "staticcheck", "./...")
+	run("errcheck", "generic dropped-error lint; the repository-specific rule is ERR-FLOW", "errcheck", "-blank", "./...")
+	return out
+}
+
+func minInt(a, b int) int {
+	if a < b {
+		return a
+	}
+	return b
+}
